@@ -796,6 +796,7 @@ func collectionOf(vm *VM, agg func([]Term, *Env) Term, template, goal, instances
 
 func variant(t1, t2 Term, env *Env) bool {
 	s := map[Variable]Variable{}
+	r := map[Variable]Variable{} // The inverse of s. A variant is a bijective renaming of variables.
 	rest := [][2]Term{
 		{t1, t2},
 	}
@@ -813,6 +814,13 @@ func variant(t1, t2 Term, env *Env) bool {
 					}
 				} else {
 					s[x] = y
+				}
+				if z, ok := r[y]; ok {
+					if z != x {
+						return false
+					}
+				} else {
+					r[y] = x
 				}
 			default:
 				return false
